@@ -7,7 +7,9 @@ ID=$1; SRC=$2; WT=/tmp/wt_confirm; LOG=/tmp/confirm_$ID.log
 exec > $LOG 2>&1
 set -x
 cd $WT && git checkout -q -- . && git apply $SRC/patch.diff || { echo "CONFIRM_RESULT apply_failed"; exit 1; }
-nice -n 5 ninja -C $WT/_build -j12 > /tmp/confirm_${ID}_ninja.log 2>&1; BUILD=$?
+# build everything the suite runs, test executables included: ctest's own per-test ninja calls must find nothing to do,
+# several of them re-linking one static library at the same time corrupt it
+nice -n 5 ninja -C $WT/_build -j12 all tests > /tmp/confirm_${ID}_ninja.log 2>&1; BUILD=$?
 tail -3 /tmp/confirm_${ID}_ninja.log
 if [ $BUILD -ne 0 ]; then echo "CONFIRM_RESULT build_failed"; git checkout -q -- .; exit 1; fi
 ctest --test-dir $WT/_build -j8 --timeout 900 > /tmp/confirm_${ID}_ctest.log 2>&1; CT=$?
